@@ -217,9 +217,15 @@ Definition rebuild_exact_b (id target : Z) (pre post : list mtx) : bool :=
         && (target <=? t_sched b) && negb (sp_expired b target))) pre post.
 
 (** the status view, row by row: it never reports an unmined row silently (the row is ready with
-    an action, or names what it is blocked on, or is in flight), a mined row carries neither, and a
-    row reported ready to broadcast is one the drive API may safely offer *)
+    an action, or names what it is blocked on, or is in flight), a mined row carries neither, a
+    row reported ready to broadcast is one the drive API may safely offer, and value that can no
+    longer move (an unmined row that is marked or depends on a dead transaction) is reported as
+    [Unsatisfiable], never as merely waiting *)
+Definition row_dead_b (s : mstate) (tg : targets) (t : mtx) : bool :=
+  sp_unmined t && (is_some (t_unsat t)
+                   || existsb (fun d => mem d (sp_dead (m_txs s) (tg_scanned tg))) (t_deps t)).
 Definition status_row_ok (s : mstate) (tg : targets) (t : mtx) (x : txstatus) : bool :=
+  (if row_dead_b s tg t then option_eqb blocker_eqb (ts_blocked x) (Some BUnsatisfiable) else true) &&
   (ts_id x =? t_id t)
   && Bool.eqb (ts_ready x) (is_some (ts_action x))
   && (if ts_ready x then negb (is_some (ts_blocked x)) else true)
